@@ -500,7 +500,7 @@ func main() {
 	root := vlib.NewRand(res.Seed)
 	if mode == "" || mode == "all" || mode == "ledger" {
 		var total int
-		for i := 0; i < nseq && res.NViolations() < 20; i++ {
+		for i := 0; i < nseq && res.NViolations() < 20 && !res.TimeUp(); i++ {
 			total += ledgerSeq(res, root.U64(), maxExp, keys)
 			if i%50 == 49 {
 				runtime.GC()
